@@ -8,12 +8,23 @@ import (
 	"github.com/robfig/soy/soymsg"
 )
 
+// verifTempError: an error of the kind net.Error describes (a deadline that passed, EAGAIN): a
+// failed write all the same.
+type verifTempError struct{}
+
+func (verifTempError) Error() string   { return "verif: injected transient write failure" }
+func (verifTempError) Temporary() bool { return true }
+func (verifTempError) Timeout() bool   { return true }
+
+var errVerifTemporary error = verifTempError{}
+
 // faultWriter injects write failures. mode 0: fails (and keeps failing) from the Write call on
 // which a fresh symbolic boolean is true; mode 1: the same, and the failing call accepts a
 // symbolic number m < len(p) of its bytes (short write); mode 2: a writer with a symbolic
 // capacity c: a write that does not fit accepts what fits and fails, later writes fail unless
 // they are empty (a full disk or a closed pipe accepts an empty write); mode 3: transient: exactly
-// one symbolically chosen call fails, the writer works again afterwards.
+// one symbolically chosen call fails, the writer works again afterwards; mode 4: the same, and the
+// failure is reported as a Temporary/Timeout error.
 type faultWriter struct {
 	buf       []byte
 	failed    bool
@@ -47,9 +58,13 @@ func (w *faultWriter) Write(p []byte) (int, error) {
 			room = 0
 		}
 		return w.fail(p[:room])
-	case 3:
+	case 3, 4:
 		if !w.failed && verifBool() {
-			return w.fail(nil)
+			n, err := w.fail(nil)
+			if w.mode == 4 {
+				err = errVerifTemporary // what a socket reports on a timeout: Temporary() and Timeout() are true
+			}
+			return n, err
 		}
 		w.buf = append(w.buf, p...)
 		return len(p), nil
@@ -184,7 +199,7 @@ func H_fault(t, d, mode int) {
 	if err == nil {
 		verifAssert(got == want, "render returned nil but the writer did not accept the whole output")
 	}
-	if mode != 3 {
+	if mode != 3 && mode != 4 {
 		verifAssert(len(got) <= len(want) && want[:len(got)] == got, "accepted bytes are not a prefix of the fault-free output")
 	}
 }
